@@ -467,7 +467,32 @@ func c08Ctx() *plush.Context {
 	return ctx
 }
 
+// c08StoredBlocks: break / continue in a block that was stored (contentFor) and is replayed
+// (contentOf) inside the block of another helper, inside the loop.
+func c08StoredBlocks(b *core.B) {
+	for _, c := range []struct{ t, want string }{
+		{`<%= for (i) in [1, 2, 3] { %><%= cap() { %>xA<% break %>By<% } %>z<% } %>`, "xA"},
+		{`<%= for (i) in [1, 2, 3] { %><% contentFor("a") { %>A<% break %>B<% } %><%= cap() { %>x<%= contentOf("a") %>y<% } %>z<% } %>`, "xA"},
+		{`<%= for (i) in [1, 2, 3] { %><% contentFor("a") { %>A<% if (i == 2) { continue } %>B<% } %><%= cap() { %>x<%= contentOf("a") %>y<% } %>z<% } %>`, "xAByzxAxAByz"},
+		{`<%= for (i) in [1, 2, 3] { %><% contentFor("a") { %>A<%= i %><% if (i == 2) { continue } %>B<% } %>(<%= contentOf("a") %>)<% } %>`, "(A1B)(A2(A3B)"},
+		{`<%= for (i) in [1, 2] { %><%= cap() { %><%= cap() { %><%= cap() { %>a<% if (i == 1) { continue } %>b<% } %>c<% } %>d<% } %>e<% } %>`, "aabcde"},
+	} {
+		if !b.Begin("stored blocks: " + c.t) {
+			continue
+		}
+		res := render(b, c.t, c08Ctx())
+		b.NonTrivialStr(c.t)
+		b.Count("control-in-stored-or-nested-helper-blocks")
+		if res.Pan == nil && (res.Err != nil || res.Out != c.want) {
+			b.Violate("wrong-loop-output|stored-or-nested-helper-block", fmt.Sprintf("want %q, got %s", c.want, res))
+		}
+	}
+}
+
 func c08Run(b *core.B) {
+	if b.Batch == 0 {
+		c08StoredBlocks(b)
+	}
 	r := b.Rng(1)
 	n := 120000
 	if b.Tier == core.Thorough {
